@@ -63,10 +63,54 @@ func (fr *Frame) localCellOf(v ssa.Value) *LocalCell {
 
 // execBlock runs the instructions of b and returns the outgoing edges
 func (fr *Frame) execBlock(b *ssa.BasicBlock, st *State, l *Loop) []*Edge {
+	return fr.execInstrs(b, 0, st, l)
+}
+
+// execInstrs runs the instructions of b from index start on. A call of an inlined function whose return edges fall into
+// the groups "returned true" / "returned false" is not merged: the rest of the block is executed once per group, so
+// that a branch on the result folds and the two outcomes meet only where control flow joins them anyway.
+func (fr *Frame) execInstrs(b *ssa.BasicBlock, start int, st *State, l *Loop) []*Edge {
 	vc := fr.vc
-	for _, ins := range b.Instrs {
+	for idx := start; idx < len(b.Instrs); idx++ {
+		ins := b.Instrs[idx]
 		if st.Reach == TFalse {
 			return nil
+		}
+		if call, isCall := ins.(*ssa.Call); isCall {
+			vc.pendingAlt = nil
+			fr.env[call] = fr.call(call, st)
+			if alt := vc.pendingAlt; alt != nil {
+				vc.pendingAlt = nil
+				mainVal := fr.env[call]
+				mainReach := st.Reach
+				// values this block defines after the call, per fork
+				out := fr.execInstrs(b, idx+1, st, l)
+				mainDefs := map[ssa.Value]Value{}
+				for _, nx := range b.Instrs[idx+1:] {
+					if v, ok := nx.(ssa.Value); ok {
+						if val, have := fr.env[v]; have {
+							mainDefs[v] = val
+						}
+					}
+				}
+				mainRets := len(fr.rets)
+				fr.env[call] = alt.Val
+				out = append(out, fr.execInstrs(b, idx+1, alt.St, l)...)
+				_ = mainRets
+				// later blocks see the call result and the rest of this block's values as a case distinction
+				fr.env[call] = iteValue(mainReach, mainVal, alt.Val)
+				for v, mv := range mainDefs {
+					if av, have := fr.env[v]; have && !sameValue(av, mv) {
+						if merged, ok := tryIte(mainReach, mv, av); ok {
+							fr.env[v] = merged
+						}
+					} else if !have {
+						fr.env[v] = mv
+					}
+				}
+				return out
+			}
+			continue
 		}
 		switch x := ins.(type) {
 		case *ssa.Phi, *ssa.DebugRef:
@@ -795,4 +839,19 @@ func (fr *Frame) rangeNext(x *ssa.Next, st *State) Value {
 		val = st.load(cell, mt.Elem())
 	}
 	return TupleV{ok, kv, val}
+}
+
+func sameValue(a, b Value) bool {
+	ta, ok1 := a.(*Term)
+	tb, ok2 := b.(*Term)
+	return ok1 && ok2 && ta == tb
+}
+
+func tryIte(c *Term, a, b Value) (v Value, ok bool) {
+	defer func() {
+		if recover() != nil {
+			v, ok = nil, false
+		}
+	}()
+	return iteValue(c, a, b), true
 }
